@@ -123,8 +123,10 @@ class BLEMetadata(Metadata):
             direction = BleDirection.UNKNOWN
 
         channel = rf_channel_to_ble_channel(header.rf_channel)
-        is_crc_valid = header.crc_valid == 1
-        rssi = header.signal
+        # CRC validity and signal power are only meaningful when the header
+        # flags them as checked/valid (see convert_to_header)
+        is_crc_valid = (header.crc_valid == 1) if header.crc_checked == 1 else None
+        rssi = header.signal if header.sig_power_valid == 1 else None
 
         return BLEMetadata(
             direction = direction,
